@@ -25,6 +25,7 @@ type histCase struct {
 	Steps    []string          `json:"steps"`
 	Handles  []int             `json:"handles"` // handle index per step (0/1)
 	// script mode: several profile texts, named handles, an explicit sequence of compile / validate / validateCompiled
+	VaryCfg  bool              `json:"varyCfg"`
 	Profiles map[string]string `json:"profiles"`
 	Script   []histOp          `json:"script"`
 }
@@ -63,6 +64,35 @@ func runHistory(c histCase) histObs {
 		return obs
 	}
 	repCfg := config.DefaultReportConfiguration()
+	// report configurations used by the steps: the report is a function of (profile, doc, configuration)
+	cfgs := map[string]config.ReportConfiguration{"": repCfg, "alt": repCfg, "altLex": repCfg, "altRep": repCfg, "noDate": repCfg}
+	{
+		a := repCfg
+		a.ReportSchemaIri, a.LexicalSchemaIri = altReportSchema, altLexicalSchema
+		cfgs["alt"] = a
+		b := repCfg
+		b.LexicalSchemaIri = altLexicalSchema
+		cfgs["altLex"] = b
+		d := repCfg
+		d.ReportSchemaIri = altReportSchema
+		cfgs["altRep"] = d
+		e := repCfg
+		e.IncludeReportCreationTime = false
+		cfgs["noDate"] = e
+	}
+	cfgNames := []string{"", "alt", "altLex", "altRep", "noDate"}
+	stepCfg := func(i int) string {
+		if !c.VaryCfg {
+			return ""
+		}
+		return cfgNames[(i*7+len(c.ID))%len(cfgNames)]
+	}
+	dk := func(d, cfg string) string {
+		if cfg == "" {
+			return d
+		}
+		return d + "@" + cfg
+	}
 	record := func(entry, dkey string, o outcome) {
 		co := callObs{Entry: entry, Kind: o.kind, Err: o.err, Panic: o.pmsg, Events: []int{}, TimesOK: true}
 		if o.kind == "report" {
@@ -116,10 +146,17 @@ func runHistory(c histCase) histObs {
 	}
 	for _, d := range c.Fresh {
 		text := c.Docs[d]
-		record("validate", d, guarded(func() (string, *rego.PreparedEvalQuery, error) {
-			r, err := pkg.ValidateWithConfiguration(c.Profile, text, false, nil, clockA, repCfg)
-			return r, nil, err
-		}))
+		for _, cn := range cfgNames {
+			if cn != "" && !c.VaryCfg {
+				continue
+			}
+			rc := cfgs[cn]
+			record("validate", dk(d, cn), guarded(func() (string, *rego.PreparedEvalQuery, error) {
+				r, err := pkg.ValidateWithConfiguration(c.Profile, text, false, nil, clockA, rc)
+				return r, nil, err
+			}))
+			obs.Calls[len(obs.Calls)-1].DClass = c.DClasses[d]
+		}
 	}
 	nh := 1
 	for _, h := range c.Handles {
@@ -152,10 +189,13 @@ func runHistory(c histCase) histObs {
 		if i < len(c.Handles) {
 			h = handles[c.Handles[i]]
 		}
-		record("validateCompiled", d, guarded(func() (string, *rego.PreparedEvalQuery, error) {
-			r, err := pkg.ValidateCompiledWithConfiguration(h, text, false, nil, clockA, repCfg)
+		cn := stepCfg(i)
+		rc := cfgs[cn]
+		record("validateCompiled", dk(d, cn), guarded(func() (string, *rego.PreparedEvalQuery, error) {
+			r, err := pkg.ValidateCompiledWithConfiguration(h, text, false, nil, clockA, rc)
 			return r, nil, err
 		}))
+		obs.Calls[len(obs.Calls)-1].DClass = c.DClasses[d]
 	}
 	return obs
 }
